@@ -57,3 +57,17 @@ Definition sofa_arrays_bytesb (c : cas) : bool :=
   forallb (fun v => match s_arr (v_sofa v) with
                     | Some o => match hget (c_heap c) o with Some f => String.eqb (o_type f) "uima.cas.ByteArray" | None => false end
                     | None => true end) (c_views c).
+
+(* ---- CASes for the non-vacuity examples (Props/C14.v, Props/C03.v): the CAS of XmiExample.v (two views with astral
+   texts, cycle, shared and inline arrays, a referenced-only annotation of the second view) with two structures indexed in
+   the first view, in both orders; and the same CAS with the referenced-only annotation (object 3) and the shared array
+   (object 6) id-less, so that a save has ids to assign ---- *)
+From Cassis Require XmiExample.
+Definition dx_schema : schema := XmiExample.ex_schema.
+Definition dx_views (ms : list oid) : list cview :=
+  match c_views XmiExample.ex_cas with v1 :: r => mkView (v_sofa v1) ms :: r | [] => [] end.
+Definition dx_cas : cas := mkCas (dx_views [1; 2]%N) (c_heap XmiExample.ex_cas) (c_next_id XmiExample.ex_cas).
+Definition dx_cas_perm : cas := mkCas (dx_views [2; 1]%N) (c_heap XmiExample.ex_cas) (c_next_id XmiExample.ex_cas).
+Definition drop_id (h : heap) (o : oid) : heap :=
+  map (fun p => if N.eqb (fst p) o then (fst p, mkFs (o_type (snd p)) None (o_slots (snd p))) else p) h.
+Definition dx_cas_noid : cas := mkCas (dx_views [1; 2]%N) (drop_id (drop_id (c_heap XmiExample.ex_cas) 3%N) 6%N) (c_next_id XmiExample.ex_cas).
